@@ -16,12 +16,12 @@ typedef std::vector<uint8_t> Elem;
 enum
 {
     L_VEC, L_BUF, L_RM_SPARE, L_RM_FULL, L_SORTF_SPARE, L_SORTF_FULL, L_SORTB_SPARE, L_SORTB_FULL, L_BIGIDX, L_REALLOC,
-    L_BUF_REFUSED, L_STORE_MID, L_ERASE_MID, L_ERASE_TRUNC, L_SETZ, L_SWAP, L_PUSH_SORT, L_SIZ_GT8, L_FAULT_HIT, L_FAULT_LATE, L_BUF_SETM_SHRINK, L_SEARCH, L_LARGE
+    L_BUF_REFUSED, L_STORE_MID, L_ERASE_MID, L_ERASE_TRUNC, L_SETZ, L_SWAP, L_PUSH_SORT, L_SIZ_GT8, L_FAULT_HIT, L_FAULT_LATE, L_BUF_SETM_SHRINK, L_SEARCH, L_LARGE, L_KEY_BEHIND_NUL
 };
 static char const *const labels[] = {"vector", "buffer", "positional_remove_with_spare_slot", "positional_remove_exactly_full",
                                      "sort_fore_spare", "sort_fore_full", "sort_back_spare", "sort_back_full", "index_ge_2^32",
                                      "reallocation", "buffer_refused_op", "store_in_middle", "erase_in_middle", "erase_truncates", "setz",
-                                     "swap", "push_sort", "element_size_gt_8", "fault_hit_library_request", "fault_not_in_first_op", "buf_setm_shrink_below_count", "search", "capacity_or_count_of_several_hundred_elements", nullptr};
+                                     "swap", "push_sort", "element_size_gt_8", "fault_hit_library_request", "fault_not_in_first_op", "buf_setm_shrink_below_count", "search", "capacity_or_count_of_several_hundred_elements", "key_in_byte_1_behind_a_mostly_NUL_byte", nullptr};
 static char const *const metrics[] = {"max_elements", "faulty_executions", nullptr};
 static uint8_t const dict[] = {16, 6, 5, 11, 12, 13, 14};
 #ifdef VP_FAULT
@@ -39,13 +39,17 @@ extern "C" vp_info const *vp_get_info(void) { return &info; }
 static int g_cmp_style = 0;
 static int cmp_shape2(int x, int y);
 // left argument: an element; right argument: a probe whose single byte holds the complement of the key
+// where the one-byte key sits inside an element: byte 0, or - per history, for elements of two bytes or more - byte 1 behind a
+// byte that is mostly NUL (elements that agree up to a NUL and differ behind it; binary data is not a C string)
+static bool g_key_hi = false;
+static size_t g_key_at = 0; // set from the box right before every call that takes the comparator
 static int cmp_elem_probe(void const *a, void const *b)
 {
-    return cmp_shape2(*(uint8_t const *)a, uint8_t(~*(uint8_t const *)b));
+    return cmp_shape2(((uint8_t const *)a)[g_key_at], uint8_t(~*(uint8_t const *)b));
 }
 static int cmp_first(void const *a, void const *b)
 {
-    return cmp_shape2(*(uint8_t const *)a, *(uint8_t const *)b);
+    return cmp_shape2(((uint8_t const *)a)[g_key_at], ((uint8_t const *)b)[g_key_at]);
 }
 static int cmp_shape2(int x, int y)
 {
@@ -103,18 +107,20 @@ struct Run
     explicit Run(Ctx &c) : cx(c) {}
 };
 
+static inline size_t kpos(Box const &b) { return (g_key_hi && b.siz >= 2) ? 1 : 0; }
 static Elem mk(Box &b, uint8_t key)
 {
     Elem e(b.siz);
     unsigned s = b.serial++;
-    e[0] = key;
-    for (size_t j = 1; j < b.siz; ++j) { e[j] = uint8_t(s * 7 + j * 13 + 1); }
+    for (size_t j = 0; j < b.siz; ++j) { e[j] = uint8_t(s * 7 + j * 13 + 1); }
+    if (kpos(b)) { e[0] = (s % 4 == 3) ? uint8_t(s * 7 + 1) : uint8_t(0); }
+    e[kpos(b)] = key;
     return e;
 }
 
 static bool model_sorted(Box const &b)
 {
-    for (size_t i = 1; i < b.m.size(); ++i) { if (b.m[i - 1][0] > b.m[i][0]) { return false; } }
+    for (size_t i = 1; i < b.m.size(); ++i) { if (b.m[i - 1][kpos(b)] > b.m[i][kpos(b)]) { return false; } }
     return true;
 }
 
@@ -201,7 +207,7 @@ static void multiset_same(Run &r, Box &b, std::vector<Elem> want, char const *op
     std::vector<Elem> got;
     uint8_t *p = b.base();
     for (size_t i = 0; i < num; ++i) { got.emplace_back(p + i * b.siz, p + (i + 1) * b.siz); }
-    for (size_t i = 1; i < num; ++i) { VP_CHECK(r.cx, got[i - 1][0] <= got[i][0], "sort:not_sorted", "after %s: element %zu (key %u) precedes key %u", op, i - 1, got[i - 1][0], got[i][0]); }
+    for (size_t i = 1; i < num; ++i) { VP_CHECK(r.cx, got[i - 1][kpos(b)] <= got[i][kpos(b)], "sort:not_sorted", "after %s: element %zu (key %u) precedes key %u", op, i - 1, got[i - 1][kpos(b)], got[i][kpos(b)]); }
     std::vector<Elem> a = got;
     std::sort(a.begin(), a.end());
     std::sort(want.begin(), want.end());
@@ -256,7 +262,7 @@ static void op_push(Run &r, Box &b, Tape &t, bool fore, int sort_after)
         if (fore) { rest.erase(rest.begin()); }
         else { rest.pop_back(); }
         bool ok = true;
-        for (size_t i = 1; i < rest.size(); ++i) { if (rest[i - 1][0] > rest[i][0]) { ok = false; } }
+        for (size_t i = 1; i < rest.size(); ++i) { if (rest[i - 1][kpos(b)] > rest[i][kpos(b)]) { ok = false; } }
         if (!ok)
         {
             ++r.cx.rep->excluded;
@@ -265,6 +271,7 @@ static void op_push(Run &r, Box &b, Tape &t, bool fore, int sort_after)
         bool spare = b.num() < b.mem();
         std::vector<Elem> want = b.m;
         r.cx.log("  sort_%s (%s, %zu elements)\n", fore ? "fore" : "back", spare ? "spare slot" : "exactly full", b.m.size());
+        g_key_at = kpos(b);
         if (b.is_buf) { fore ? a_buf_sort_fore(b.b, cmp_first) : a_buf_sort_back(b.b, cmp_first); }
         else { fore ? a_vec_sort_fore(b.v, cmp_first) : a_vec_sort_back(b.v, cmp_first); }
         if (b.m.size() >= 3)
@@ -565,6 +572,7 @@ static void op_setz(Run &r, Box &b, Tape &t)
 static void op_sort(Run &r, Box &b)
 {
     std::vector<Elem> want = b.m;
+    g_key_at = kpos(b);
     if (b.is_buf) { a_buf_sort(b.b, cmp_first); }
     else { a_vec_sort(b.v, cmp_first); }
     r.cx.log("%s sort\n", b.is_buf ? "buf" : "vec");
@@ -589,6 +597,7 @@ static void op_push_sort(Run &r, Box &b, Tape &t)
         // (one byte holding the complement of the key) with a comparator that decodes its right argument accordingly
         uint8_t probe = uint8_t(~key);
         bool hetero = (r.opno & 1) != 0;
+        g_key_at = kpos(b);
         void *p = (r.opno & 4) ? (hetero ? (b.is_buf ? (void *)A_BUF_PUSH_SORT(uint8_t, b.b, &probe, cmp_elem_probe) : (void *)A_VEC_PUSH_SORT(uint8_t, b.v, &probe, cmp_elem_probe))
                                          : (b.is_buf ? (void *)A_BUF_PUSH_SORT(uint8_t, b.b, e.data(), cmp_first) : (void *)A_VEC_PUSH_SORT(uint8_t, b.v, e.data(), cmp_first)))
                   : hetero ? (b.is_buf ? a_buf_push_sort(b.b, &probe, cmp_elem_probe) : a_vec_push_sort(b.v, &probe, cmp_elem_probe))
@@ -622,14 +631,17 @@ static void op_search(Run &r, Box &b, Tape &t)
 {
     uint8_t key = t.u8();
     if (!model_sorted(b) || b.m.empty()) { return; }
-    if (t.coin()) { key = b.m[t.u8() % b.m.size()][0]; }
-    void *p = b.is_buf ? a_buf_search(b.b, &key, cmp_first) : a_vec_search(b.v, &key, cmp_first);
+    if (t.coin()) { key = b.m[t.u8() % b.m.size()][kpos(b)]; }
+    g_key_at = kpos(b);
+    Elem probe(b.siz, 0); // the object searched for has the layout of an element (the comparator reads the key byte of both)
+    probe[kpos(b)] = key;
+    void *p = b.is_buf ? a_buf_search(b.b, probe.data(), cmp_first) : a_vec_search(b.v, probe.data(), cmp_first);
     {
-        void *pt = b.is_buf ? (void *)A_BUF_SEARCH(uint8_t, b.b, &key, cmp_first) : (void *)A_VEC_SEARCH(uint8_t, b.v, &key, cmp_first);
+        void *pt = b.is_buf ? (void *)A_BUF_SEARCH(uint8_t, b.b, probe.data(), cmp_first) : (void *)A_VEC_SEARCH(uint8_t, b.v, probe.data(), cmp_first);
         VP_CHECK(r.cx, (pt == nullptr) == (p == nullptr), "seq:typed_macro", "typed SEARCH macro %s, the function %s", pt ? "finds an element" : "finds nothing", p ? "finds one" : "finds nothing");
     }
     bool present = false;
-    for (auto &e : b.m) { if (e[0] == key) { present = true; } }
+    for (auto &e : b.m) { if (e[kpos(b)] == key) { present = true; } }
     r.cx.label(L_SEARCH);
     r.cx.log("search key %u -> %s\n", key, p ? "found" : "absent");
     if (!present) { VP_CHECK(r.cx, p == nullptr, "seq:search_found_absent", "search for absent key %u returned an element", key); }
@@ -637,7 +649,7 @@ static void op_search(Run &r, Box &b, Tape &t)
     {
         VP_CHECK(r.cx, p != nullptr, "seq:search_missed", "search for present key %u returned null", key);
         check_inside(r, b, p, "search");
-        VP_CHECK(r.cx, *(uint8_t *)p == key && size_t((uint8_t *)p - b.base()) / b.siz < b.m.size(), "seq:search_wrong", "search for key %u returned key %u", key, *(uint8_t *)p);
+        VP_CHECK(r.cx, ((uint8_t *)p)[kpos(b)] == key && size_t((uint8_t *)p - b.base()) / b.siz < b.m.size(), "seq:search_wrong", "search for key %u returned key %u", key, ((uint8_t *)p)[kpos(b)]);
     }
 }
 
@@ -901,6 +913,8 @@ static void run_history(Tape &t, Ctx &cx, uint64_t fail_at, int mode, uint64_t *
     bool is_buf = h & 1;
     r.nbox = (h & 2) ? 2 : 1;
     g_cmp_style = (h >> 2) & 7; // upper bits of the same byte (saved tapes keep their meaning)
+    g_key_hi = ((h >> 5) & 1) != 0;
+    if (g_key_hi) { cx.label(L_KEY_BEHIND_NUL); }
     cx.hash.add(uint64_t(g_cmp_style) << 8);
     for (int i = 0; i < r.nbox; ++i) { make_box(r, r.bx[i], t, is_buf); }
     unsigned maxops =
